@@ -1,6 +1,7 @@
 package props
 
 import (
+	"bytes"
 	"context"
 	"errors"
 	"fmt"
@@ -734,9 +735,38 @@ func c06LocalActiveReader(r *fw.R, d c06Desc, iter int) {
 	c06Delay.Store(true)
 	defer c06Delay.Store(false)
 	code := c06RepCodes[iter%len(c06RepCodes)]
+	stopFlood := make(chan struct{})
+	if iter%3 == 0 && !drop {
+		// (not when the peer vanishes right behind its echo: a Pong for a Ping queued before the echo could then not
+		// be written, and Close reports that)
+		// control frames keep arriving (and being answered) while Close builds and writes its frame
+		go func() {
+			pl := bytes.Repeat([]byte("P"), 60)
+			for i := 0; i < 400; i++ {
+				select {
+				case <-stopFlood:
+					return
+				default:
+				}
+				if i%3 == 2 {
+					peer.Send(wire.Pong(pl))
+				} else {
+					peer.Send(wire.Ping(pl))
+				}
+			}
+		}()
+		time.Sleep(50 * time.Microsecond)
+		r.Count("local_closes_during_a_control_frame_flood", 1)
+	}
 	cerr := c.Close(websocket.StatusCode(code), "bye")
+	close(stopFlood)
 	r.Key("local-active-reader/%s/reader=%s/%s", d.Role, d.Place, d.Closer)
 	r.Count("local_closes_checked", 1)
+	peer.Locked(func() {
+		if peer.Conf.CloseSeen && (peer.Conf.CloseCode != code || peer.Conf.CloseRsn != "bye") {
+			r.Violate("C06/close-payload-differs/active-reader", fmt.Sprintf("%s Close(%d, \"bye\") with reader %s active emitted a Close frame with code %d and reason %.40q", d.Role, code, d.Place, peer.Conf.CloseCode, peer.Conf.CloseRsn), hexdump(peer.Conf.ClosePay, 80))
+		}
+	})
 	if cerr != nil {
 		r.Violate("C06/close-returned-error/active-reader-"+d.Place, fmt.Sprintf("%s Close(%d) with reader %s active, %s: the peer echoed the code but Close returned: %v", d.Role, code, d.Place, d.Closer, cerr), "")
 	}
